@@ -12,9 +12,8 @@ def to_complex(z: dict[str, float], degree: bool = False) -> complex:
     except (KeyError, TypeError):
         ...
     try:
-        if degree:
-            z['phase'] *= np.pi/180
-        return z['abs']*complex(np.cos(z['phase']), np.sin(z['phase']))
+        phase = z['phase']*np.pi/180 if degree else z['phase']
+        return z['abs']*complex(np.cos(phase), np.sin(phase))
     except (KeyError, TypeError):
         raise FileFormatError
 
